@@ -57,3 +57,159 @@ let () = Modes.register "bind" (fun records mismatches ->
       | _ -> ()
     done
   with End_of_file -> ()))
+
+(* ------------------------------------------------------------------------------------------------
+   Mode `abandon-sim` -- MODEL-SIDE TESTING ONLY (supporting test of the C09 model, coq/Model/Abandon.v).
+   It supports the theorems of Properties/C09abandon.v (it shows that they are not vacuous and exercises
+   the two open statements of Proofs/AbandonOpen.v); it never replaces them and says nothing about /repo.
+   Input: lines `<seed> <number of programs> [<max steps>]`.  Every program: 2-5 segments (arena / OS list,
+   sub-process 1 or 2, an owner, 0-3 live blocks), 3-6 threads (the last thread of each sub-process is the
+   collector); owners free locally and exit (abandon everything they own), the others free remotely with
+   reclaim-on-free on / off and run cursor visits (try_reclaim / collect / reclaim_all decisions random).
+   A random schedule of <max steps> steps with `inv_b` evaluated after every step; then all threads run to
+   completion (round robin), `inv_b`, `quiescent`, `count_ok_b` are checked, and finally each collector
+   runs one forced collect alone and `no_dead_abandoned_b` is checked for its sub-process.
+   Output: `MISMATCH sim ...` per failure, one `STAT sim ...` line per input line.
+
+   Mode `abandon-trace`: prints the adoption trace (thread, location, old, new on thread_id / abandoned
+   bit / OS-list membership) of the example program for a schedule given as a list of thread numbers:
+   input lines `<seed> <t0> <t1> ...` (the program is the one `abandon-sim` generates for <seed>). *)
+module A = Abandon
+let rec nat_of_int n = if n <= 0 then Datatypes.O else Datatypes.S (nat_of_int (n - 1))
+let rec int_of_nat = function Datatypes.O -> 0 | Datatypes.S k -> 1 + int_of_nat k
+let n_i = n_of_int
+
+type simprog = { st0 : A.state; nthreads : int; collectors : (int * int) list (* thread, subproc *); nsegs : int }
+
+let gen_prog (seed : int) : simprog =
+  Random.init seed;
+  let rnd k = Random.int k in
+  let nsegs = 2 + rnd 4 in
+  let nworkers = 2 + rnd 3 in
+  (* threads 0 .. nworkers-1 are workers with a sub-process; then one collector per sub-process *)
+  let wsp = Array.init nworkers (fun i -> if i = 0 then 1 else 1 + rnd 2) in
+  let nthreads = nworkers + 2 in
+  let sp_of t = if t < nworkers then wsp.(t) else (t - nworkers + 1) in
+  let owner = Array.make nsegs 0 and live = Array.make nsegs 0 and arena = Array.make nsegs true in
+  let segs = L.init nsegs (fun s ->
+    let o = rnd nworkers in
+    owner.(s) <- o; live.(s) <- rnd 4; arena.(s) <- (rnd 3 <> 0);
+    { A.g_arena = arena.(s); g_subproc = n_i (sp_of o); g_tid = A.tid_of (nat_of_int o); g_bit = false; g_flag = A.coq_USE;
+      g_live = n_i live.(s); g_tfree = N0; g_delayed = N0; g_visits = N0; g_freed = false; g_holder = None }) in
+  let budget = Array.copy live in
+  let progs = Array.make nthreads [] in
+  let add t o = progs.(t) <- progs.(t) @ [o] in
+  let modes = [| A.MTry; A.MCollect; A.MAll |] in
+  for t = 0 to nworkers - 1 do
+    (* some local / remote frees, some visits, then thread exit: abandon everything owned *)
+    let nops = rnd 5 in
+    for _ = 1 to nops do
+      let s = rnd nsegs in
+      (match rnd 4 with
+       | 0 | 1 -> if budget.(s) > 0 then (budget.(s) <- budget.(s) - 1; add t (A.OFree (nat_of_int s, rnd 2 = 0, rnd 4 <> 0)))
+       | 2 -> add t (A.OVisitArena (modes.(rnd 3), nat_of_int s, rnd 2 = 0))
+       | _ -> add t (A.OVisitOs (modes.(rnd 3), rnd 2 = 0, rnd 3 = 0)); add t A.OCursorDone)
+    done;
+    if rnd 5 <> 0 then
+      for s = 0 to nsegs - 1 do if owner.(s) = t then add t (A.OAbandon (nat_of_int s)) done;
+    let nafter = rnd 3 in
+    for _ = 1 to nafter do
+      let s = rnd nsegs in
+      if budget.(s) > 0 && rnd 2 = 0 then (budget.(s) <- budget.(s) - 1; add t (A.OFree (nat_of_int s, rnd 2 = 0, true)))
+      else (add t (A.OVisitArena (modes.(rnd 3), nat_of_int s, rnd 2 = 0)))
+    done
+  done;
+  (* collectors: remote frees of what is left, then nothing (the forced collect is appended later by the driver) *)
+  for c = nworkers to nthreads - 1 do
+    for s = 0 to nsegs - 1 do
+      while budget.(s) > 0 && rnd 3 <> 0 do budget.(s) <- budget.(s) - 1; add c (A.OFree (nat_of_int s, rnd 2 = 0, true)) done
+    done
+  done;
+  let st0 = A.mk_state segs [] [] (L.init nthreads (fun t -> (n_i (sp_of t), progs.(t)))) in
+  { st0; nthreads; collectors = [(nworkers, 1); (nworkers + 1, 2)]; nsegs }
+
+let append_prog (st : A.state) (t : int) (ops : A.op list) : A.state =
+  { st with A.threads = L.mapi (fun i th -> if i = t then { th with A.t_prog = th.A.t_prog @ ops } else th) st.A.threads }
+
+let sim_one (seed : int) (maxsteps : int) (fail : string -> unit) : int * int =
+  let p = gen_prog seed in
+  let st = ref p.st0 in
+  let steps = ref 0 in
+  if not (A.inv_b !st) then fail (Printf.sprintf "inv_b-initial seed=%d" seed);
+  Random.init (seed * 7919 + 13);
+  (try
+    for i = 1 to maxsteps do
+      let t = Random.int p.nthreads in
+      (match A.step !st (nat_of_int t) with
+       | Some st' -> st := st'; incr steps;
+         if not (A.inv_b st') then (fail (Printf.sprintf "inv_b seed=%d step=%d thread=%d" seed i t); raise Exit)
+       | None -> ())
+    done
+  with Exit -> ());
+  (* run everybody to completion *)
+  let progress = ref true and rounds = ref 0 in
+  while !progress && !rounds < 2000 do
+    progress := false; incr rounds;
+    for t = 0 to p.nthreads - 1 do
+      match A.step !st (nat_of_int t) with
+      | Some st' -> st := st'; incr steps; progress := true;
+        if not (A.inv_b st') then fail (Printf.sprintf "inv_b-drain seed=%d thread=%d" seed t)
+      | None -> ()
+    done
+  done;
+  if not (A.finished !st) then fail (Printf.sprintf "not-finished seed=%d (a thread is blocked for ever)" seed);
+  if not (A.quiescent !st) then fail (Printf.sprintf "not-quiescent seed=%d" seed);
+  if not (A.count_ok_b !st [n_i 1; n_i 2]) then fail (Printf.sprintf "abandoned_count seed=%d" seed);
+  (* forced collects *)
+  let collects = ref 0 in
+  L.iter (fun (c, sp) ->
+    let nos = L.length !st.A.os_list in
+    st := append_prog !st c (A.collect_prog (nat_of_int p.nsegs) (nat_of_int nos));
+    st := A.run_solo (nat_of_int (16 * (p.nsegs + nos + 2))) !st (nat_of_int c);
+    incr collects;
+    if not (A.inv_b !st) then fail (Printf.sprintf "inv_b-collect seed=%d" seed);
+    if not (A.quiescent !st) then fail (Printf.sprintf "collect-not-quiescent seed=%d" seed);
+    if not (A.no_dead_abandoned_b !st (n_i sp)) then fail (Printf.sprintf "dead-abandoned-left seed=%d subproc=%d" seed sp);
+    if not (A.count_ok_b !st [n_i 1; n_i 2]) then fail (Printf.sprintf "abandoned_count-after-collect seed=%d" seed)) p.collectors;
+  (!steps, !collects)
+
+let string_of_loc = function
+  | A.LTid s -> Printf.sprintf "tid %d" (int_of_nat s) | A.LBit s -> Printf.sprintf "bit %d" (int_of_nat s)
+  | A.LList s -> Printf.sprintf "list %d" (int_of_nat s) | A.LCount sp -> "count " ^ string_of_n sp
+  | A.LFlag s -> Printf.sprintf "flag %d" (int_of_nat s) | A.LTfree s -> Printf.sprintf "tfree %d" (int_of_nat s)
+  | A.LLock sp -> "lock " ^ string_of_n sp | A.LVLock sp -> "vlock " ^ string_of_n sp
+  | A.LBlock s -> Printf.sprintf "block %d" (int_of_nat s) | A.LVisits s -> Printf.sprintf "visits %d" (int_of_nat s)
+
+let () = Modes.register "abandon-sim" (fun records mismatches ->
+  (try
+    while true do
+      let line = input_line stdin in
+      match split_ws line with
+      | seed :: n :: rest ->
+        let seed = int_of_string seed and n = int_of_string n in
+        let maxsteps = (match rest with m :: _ -> int_of_string m | [] -> 300) in
+        let steps = ref 0 and collects = ref 0 in
+        for i = 0 to n - 1 do
+          incr records;
+          let (s, c) = sim_one (seed * 100003 + i) maxsteps (fun msg ->
+            incr mismatches; if !mismatches <= 50 then Printf.printf "MISMATCH sim %s\n" msg) in
+          steps := !steps + s; collects := !collects + c
+        done;
+        Printf.printf "STAT sim seed=%d programs=%d steps=%d forced_collects=%d\n" seed n !steps !collects
+      | _ -> ()
+    done
+  with End_of_file -> ()))
+
+let () = Modes.register "abandon-trace" (fun records mismatches ->
+  (try
+    while true do
+      let line = input_line stdin in
+      match split_ws line with
+      | seed :: sched ->
+        incr records;
+        let p = gen_prog (int_of_string seed) in
+        let tr = A.adoption_trace p.st0 (L.map (fun x -> nat_of_int (int_of_string x)) sched) in
+        L.iter (fun (((t, l), o), n) -> Printf.printf "S %d %s %s %s\n" (int_of_nat t) (string_of_loc l) (string_of_z o) (string_of_z n)) tr
+      | _ -> ()
+    done
+  with End_of_file -> ()))
